@@ -73,8 +73,8 @@ CFG = {
                   "string; parse_chunked_cuts_cluster shows the old reader failing on the model). Validated by correspondence only: that the byte-level model is the code "
                   "(encb / encbl: exact producer strings; decb: both string parsers on exact strings incl. junk parameter texts, with the uniseg cluster table, and the "
                   "ParserIO-based reader model beside the oracle model on every decb cells string; decbl: NewStyledString with hyperlink fields), grapheme segmentation "
-                  "(hypotheses TextOK / Agrees), what each handled label does (the set of labels and arities is extracted); round 4: that the three real consumers agree on agreeExact (which contains agreeClass) and never "
-                  "panic (agr: real ParseStyledString / NewStyledString / emulator side by side), that the nine disagreement classes are stable on the real code (corpus R4, model = implementation), that a real "
+                  "(hypotheses TextOK / Agrees), what each handled label does (the set of labels and arities is extracted); round 4: that the three real consumers are the three models on arbitrary well-printed lists (agr: real ParseStyledString / NewStyledString / emulator side by side; verdict: never "
+                  "panic, equal on producible sequences; agreement exactly on agreeExact follows from consumers_agree_iff and this correspondence), that the nine disagreement classes are stable on the real code (corpus R4, model = implementation), that a real "
                   "rendered frame is read back as capCells (rdf). Not findings: the disagreements lie outside the producers' range. "
                   "Outside the theorems: what ParseStyledString returns for "
                   "invalid UTF-8 (C02's streams; that it does not panic is sgr_total_parseStyled_io), negative parameter values from int overflow (read as 0 by the model), hyperlinks through ParseStyledString (it drops them: not in the property text), cell widths (not in the "
